@@ -189,6 +189,7 @@ theorem tag_neutral {o c : UInt8} (hp : IsPair o c) (t : Ty) (h : TyOkN t = true
     exact Neutral.bracket hp (.inr (.inl ⟨rfl, rfl⟩)) (tagList_neutral hp es (tyOkAlts_forall h.2))
   | .enum u n ens =>
     simp only [TyOkN, isNull, TyOk, Bool.false_or, Bool.and_eq_true] at h
+    replace h := h.1
     rw [tag_enum]
     have m := hp.ne_misc
     have hu := hp.ne_of_charOk (arith_charOk h.1.1).1
@@ -281,6 +282,7 @@ theorem tagFirstSize_tag (t : Ty) (h : TyOkN t = true) (rest : Bytes) :
   | .enum u n ens =>
     have hp : IsPair cSlash cBackslash := .inr (.inr (.inr ⟨rfl, rfl⟩))
     simp only [TyOkN, isNull, TyOk, Bool.false_or, Bool.and_eq_true] at h
+    replace h := h.1
     have m := hp.ne_misc
     have hu := hp.ne_of_charOk (arith_charOk h.1.1).1
     rw [tag_enum, List.cons_append, List.append_assoc, List.singleton_append,
